@@ -167,7 +167,7 @@ def gen_history(rng, profile='c01', nops=80, cfg=None, heavy=None):
         elif o in ('copydb', 'wrongcmp', 'failopen'):
             # close + (something) + reopen: like reopen, only without long-lived iterators; snapshots die
             if not open_iters:
-                ops.append('copydb %d' % rng.below(2) if o == 'copydb' else o); live_snaps = []
+                ops.append('copydb %d' % rng.below(2) if o == 'copydb' else ('wrongcmp %d' % rng.below(3) if o == 'wrongcmp' else o)); live_snaps = []
                 if rng.chance(1, 2): ops.append('layout')
         elif o == 'lock2':
             ops.append('lock2')
